@@ -508,9 +508,14 @@ pub fn judge_c10(info: &Info, log: &RunLog, rep: &mut Report) {
     }
     // ... and a receiver that had already concluded the transfer (for whatever outcome) before the
     // cancel could reach it keeps that outcome: the cancel lost the race against the end of the transfer
-    // (before = by the time the cancel, issued at c_t, could have reached the receiver over the link)
-    let reach = c_t + (info.latency_ms + info.max_delay_ms + 20) * 1000;
-    let concluded_first = d.finished(t.dst, id).first().map(|f| f.2.report.condition != Condition::CancelReceived && f.1 <= reach).unwrap_or(false);
+    // (before = before the cancel actually reached the receiver: the user's request there, or the arrival of the
+    // sender's EOF carrying a condition; if that EOF never arrives, the receiver cannot be excused by this rule)
+    let reach_idx = if who == t.dst {
+        c_idx
+    } else {
+        d.arrivals(t.dst, id).iter().find(|a| matches!(&a.3.payload, PDUPayload::Directive(Operations::EoF(e)) if e.condition != Condition::NoError)).map(|a| a.0).unwrap_or(0)
+    };
+    let concluded_first = d.finished(t.dst, id).first().map(|f| f.2.report.condition != Condition::CancelReceived && f.0 < reach_idx).unwrap_or(false);
     if concluded_first {
         rep.count("c10_cancel_lost_race_against_end");
     }
